@@ -56,19 +56,28 @@ def c18b(prog, R):
                 "the memtable high-water mark ignores the active or a sealed memtable", "", "%s | %s" % (lets.get("sealed"), tail))
     else:
         r.anchor_missing(name)
-    d = prog.hir.get("abstract_tree::AbstractTree::get_highest_seqno")
-    if d:
-        lets = {n["pat"]["n"]: hir_expr_str(n["init"], 200) for n in hir_walk(d["body"]) if n.get("k") == "let" and n["pat"].get("k") == "bind" and "init" in n}
-        tail = hir_expr_str(d["body"]["b"].get("e"), 100)
-        ok = lets.get("memtable_seqno") == "self.get_highest_memtable_seqno()" and lets.get("table_seqno") == "self.get_highest_persisted_seqno()" \
-            and tail == "memtable_seqno.max(table_seqno)"
-        r.check(ok, "AbstractTree::get_highest_seqno|max(memtable mark, persisted mark)", "overall mark is not the max of both marks", "", tail)
+    df = prog.fn("abstract_tree::AbstractTree::get_highest_seqno")
+    if df:
+        mem = [c for c in df.calls if c.sres.endswith("::get_highest_memtable_seqno")]
+        per = [c for c in df.calls if c.sres.endswith("::get_highest_persisted_seqno")]
+        mx = [c for c in df.calls if c.sres.endswith("::max")]
+        ok = len(mem) == 1 and len(per) == 1 and len(mx) == 1 and (mx[0].dest or {}).get("l") == 0
+        if ok:
+            srcs = {o.extra.bb for a in mx[0].args for o in origins(df, a) if o.kind == "call"}
+            ok = srcs == {mem[0].bb, per[0].bb}
+        r.check(ok, "AbstractTree::get_highest_seqno|max(memtable mark, persisted mark)", "overall mark is not the max of both marks", df.where())
+        # the two reads take separate views and data only moves memtable -> table: reading the memtables first can never
+        # miss a seqno, reading the tables first can (a flush registering its table in between hides it from both)
+        r.check(bool(mem) and bool(per) and df.dominates(mem[0].bb, per[0].bb) and mem[0].bb != per[0].bb,
+                "AbstractTree::get_highest_seqno|memtable mark is read before the persisted mark",
+                "the persisted mark is read before the memtable mark: a concurrent flush between the two reads makes the overall "
+                "mark understate what is stored", df.where())
     for m in ("get_highest_seqno", "get_highest_memtable_seqno", "get_highest_persisted_seqno"):
         b = prog.hir.get(A.tm(A.BLOBTREE, m))
         if b:
             s = hir_expr_str(b["body"], 100)
             r.check(s == "self.index.%s()" % m, "BlobTree::%s|delegates to the index tree" % m, "BlobTree::%s no longer delegates: %s" % (m, s), "", s)
-    r.floor(7)
+    r.floor(8)
 
 
 def c18c(prog, R):
